@@ -15,7 +15,10 @@ Record flags := { extras : bool;        (* feature grammar-extras *)
                   fix_escape : bool;    (* fixes/C09-1: unescape failure -> located error *)
                   fix_peek : bool;      (* fixes/C09-2: PEEK index outside i32 -> located error *)
                   fix_choice : bool;    (* fixes/C09-3: leading `|` skipped in every expression *)
-                  fix_unroll : bool }.  (* fixes/C09-4: unroller ranges without u32 overflow *)
+                  fix_unroll : bool;    (* fixes/C09-4: unroller ranges without u32 overflow *)
+                  (* two repairs made for property C06 change functions modelled here; the model follows whichever the tree has *)
+                  fix_lr : bool;        (* left_recursion::check_expr: left side of a sequence always checked, bounded repetitions and tags descended *)
+                  fix_tag : bool }.     (* ParserNode::filter_map_top_down descends into NodeTag (grammar-extras) *)
 
 Inductive loc := LPos (p : nat) | LSpan (a b : nat).
 Inductive ekind :=
